@@ -518,7 +518,11 @@ static void group_case(FILE *out, vf::Rng &rng, int nobj, int ngroups, bool exha
     }
     slots += "]";
     V    grouped;
-    bool ok = arr.GroupBy(grouped, key_text(G).c_str());
+    bool ok;
+    if (!exhaustive_code && rng.below(8) == 0) {      // the target is (a copy of) the source itself: the result replaces it
+        grouped = arr;
+        ok      = grouped.GroupBy(grouped, key_text(G).c_str());
+    } else ok = arr.GroupBy(grouped, key_text(G).c_str());
     proj(arr, after);
     // group names are logged as text units together with the member arrays, in order
     std::string names = "[";
@@ -698,7 +702,34 @@ int main(int argc, char **argv) {
                             emit("merge-self", jo, jo, at, obj);
                             break;
                         }
-                        default: {  // a string assigned from a pointer into its own storage
+                        case 5: {   // a member's own container / string moved into the value; a member appended to a value that is not an array yet;
+                                    // a member move-merged into its (full) parent
+                            V *m = (at < 4) ? obj.GetValue(key_text(1 + at).c_str()) : nullptr;
+                            if (m != nullptr) {
+                                std::string jd2, js2;
+                                jdoc(obj, jd2); jdoc(*m, js2);
+                                if (m->IsObject()) { obj = Memory::Move(*m->GetObject()); emit("assign-own", jd2, js2, at, obj); }
+                                else if (m->IsArray()) { obj = Memory::Move(*m->GetArray()); emit("assign-own", jd2, js2, at, obj); }
+                                else if (m->IsString()) { obj = Memory::Move(*m->GetString()); emit("assign-own", jd2, js2, at, obj); }
+                                else { obj += *m; emit("append-own", jd2, js2, at, obj); }
+                            }
+                            V *e = arr.GetValue((SizeT)at);
+                            jdoc(arr, jd); jdoc(*e, js);
+                            arr.Merge(Memory::Move(*e));
+                            emit("merge-own-move", jd, js, at, arr);
+                            V sv;           // a string assigned from a pointer into its own storage
+                            sv = "abcdefghijklmnopqrstuvwxyz0123456789";
+                            std::string j1, j2;
+                            jdoc(sv, j1);
+                            const char *inner = sv.StringStorage() + (at % 8);
+                            V expect;
+                            expect = std::string(inner).c_str();
+                            jdoc(expect, j2);
+                            sv = inner;
+                            emit("assign-own", j1, j2, at, sv);
+                            break;
+                        }
+                        default: {  // (unused)
                             V sv;
                             sv = "abcdefghijklmnopqrstuvwxyz0123456789";
                             jdoc(sv, jd);
@@ -746,6 +777,7 @@ int main(int argc, char **argv) {
         vf::g_trace = out;
         long n = 0;
         // exhaustive part: 1..2 objects, every (group value, key position, value kind, removed) combination
+        { vf::begin_case(n++); group_case(out, rng, 0, 3, true, 0); }      // the empty array: no groups, and that is a result
         for (int nobj = 1; nobj <= 2; ++nobj) {
             long per = 3 * 3 * 5 * 2, total = 1;
             for (int i = 0; i < nobj; ++i) total *= per;
